@@ -190,6 +190,8 @@ def call(name, args, api):
             r = evaluate_expression(expr, opts, None, False)
         failed = any(l.startswith(f'BareScript: Function "{name}" failed') for l in logs)
         out = [l for l in logs if not l.startswith('BareScript: Function')]
+        # the documented report of a rejected argument (`Invalid "name" argument value, <JSON>`) shows a number as a number: 5 and 5.0 read alike
+        out += [l for l in logs if l.startswith('BareScript: Function') and 'Invalid "' in l]
         return ('ok', r, failed, out)
     except core.CaseTimeout:
         return ('timeout', None, False, [])
